@@ -274,6 +274,10 @@ func (d *Diamond) mergeSplits(filePackedC chan<- filePacked, errorC chan<- error
 
 				existing := obj.(mergeEntry)
 				if file.Hash == existing.Hash {
+					if file.Timestamp.After(existing.Timestamp) {
+						// same content, uploaded again later on: this is now the version other uploads compare with
+						mergeIndex, _, _ = mergeIndex.Insert(key, mergeEntry{BundleEntry: file, ID: splitID})
+					}
 					continue
 				}
 
